@@ -90,7 +90,7 @@ def field_corruptions(cmd, key, val):
 def cases_for(cmd):
     base = VALID[cmd]
     keys = sorted(base)
-    out = []
+    out = [{'command': cmd, 'props': copy.deepcopy(base), 'op': 'valid'}]      # refused only by a conflict
     # one field
     for k in keys:
         for c in field_corruptions(cmd, k, base[k]):
@@ -279,7 +279,8 @@ def run_shard(shard, tier):
         cmd = shard[1]
         reps = {}
         for case in cases_for(cmd):
-            reps.setdefault(case['op'].split(':')[0] + ':' + case['op'].split(':')[1].split('+')[0][:12], case)
+            parts = case['op'].split(':')
+            reps.setdefault(parts[0] + ':' + (parts[1].split('+')[0][:12] if len(parts) > 1 else ''), case)
         for case in list(reps.values())[:12]:
             k = 0
             while True:
